@@ -161,7 +161,7 @@ def model_eval(eng, st, args, kwargs, node):
         raise Unsupported("eval scope")
     o = st.get(scope)
     if o.vsort == INT:
-        tag, val = EvalTag2(src.t, o.m, o.d), Z("int", EvalVal2(src.t, o.m, o.d))
+        tag, val = EvalTag2(src.t, o.m, o.d), Z("int", EvalVal2(src.t, o.m, o.d), tag="number")  # the value of a user expression: any number (5/2 is 2.5)
     else:
         tag, val = EvalTag1(src.t), Z("str", EvalVal1(src.t))
     outs = []
